@@ -1,2 +1,3 @@
 pub mod lexref;
 pub mod ppref;
+pub mod kwref;
